@@ -29,6 +29,9 @@ def build_cases(tier, seed=SEED, mono=False):
         add('c_2d_a_m%d' % m, [(1, 1, True, 1, 4, 'irregular'), (2, 0, False, 0, 4, 'uniform')], monodim=m)
         add('c_2d_missing_m%d' % m, [(0, 0, True, 1, 3, 'irregular'), (1, 1, True, 1, 4, 'irregular')], skip=(2, 7), zero=(3,), monodim=m)
         add('c_2d_shared_m%d' % m, [(1, 1, True, 0, 3, 'uniform'), (1, 1, True, 1, 4, 'irregular')], one_sm=True, one_po=True, monodim=m)
+    # the smallest 3-D shape: two dimensions precede / follow the monotonic one (stride arithmetic of the cumulative sum)
+    for m in ((0, 1, 2) if mono else (-1,)):
+        add('c_3d_small_m%d' % m, [(0, 0, True, 1, 2, 'uniform'), (1, 1, False, 0, 3, 'irregular'), (0, 0, True, 1, 2, 'irregular')], monodim=m)
     if tier != 'quick':
         for m in ((0, 2) if mono else (-1,)):
             add('c_3d_m%d' % m, [(1, 1, True, 0, 3, 'irregular'), (0, 0, False, 1, 3, 'uniform'), (1, 0, True, 0, 3, 'irregular')], monodim=m)
